@@ -104,6 +104,9 @@ def evaluate(unit, names, path):
         r = libc(base, vals, n)
         if r is not NotImplemented:
             return r
+        fs = [f_ for f_ in unit.functions.get(nm, []) if unit.body(f_) is not None and f_ is not fn]
+        if len(fs) == 1:
+            return h["ev"].call_function(unit, fs[0], vals)          # a helper of the unit (the comparison of one name)
         raise FD.Unknown("call to %s" % nm, n)
 
     def deref(a, n):
